@@ -269,16 +269,23 @@ func c18Body(r *simcore.Run) {
 	var cells []string
 	for i := 0; i < nCells; i++ {
 		u := c18Users[r.Intn(len(c18Users))]
+		// half of the cells select the database the user holds its permission on
 		sel := []string{"db1", "db2", "systemdb", "none"}[r.Intn(4)]
+		if r.Bool() {
+			sel = u.db
+			if sel == "*" {
+				sel = "db1"
+			}
+		}
 		kind := []string{"session", "token"}[r.Intn(2)]
-		states := []string{"valid", "valid", "valid", "none", "garbage", "closed", "deactivated", "revoked", "regranted"}
+		states := []string{"valid", "valid", "valid", "none", "garbage", "closed", "deactivated", "revoked", "regranted", "regrant-relogin", "revoke-relogin"}
 		if kind == "session" {
 			states = append(states, "idle-expired", "age-expired")
 		} else {
 			states = append(states, "token-expired")
 		}
 		state := states[r.Intn(len(states))]
-		if u.db == "*" && (state == "deactivated" || state == "revoked" || state == "regranted") {
+		if u.db == "*" && (state == "deactivated" || state == "revoked" || state == "regranted" || state == "regrant-relogin" || state == "revoke-relogin") {
 			state = "closed"
 		}
 		cells = append(cells, e.cell(u, sel, kind, state))
@@ -602,6 +609,32 @@ func (e *c18Env) cell(u c18User, sel, kind, state string) string {
 	e.adminSessions()
 	amd := sidMD(e.admin["defaultdb"])
 
+	// a permission changed before login: the new credentials carry the new permission
+	regrant := func() {}
+	origState := state
+	switch state {
+	case "regrant-relogin":
+		other := uint32(1)
+		if u.perm == 1 {
+			other = 2
+		}
+		e.must("schema/ChangePermission", amd, &schema.ChangePermissionRequest{Action: schema.PermissionAction_GRANT, Username: u.name, Database: u.db, Permission: other})
+		orig := u
+		regrant = func() {
+			e.must("schema/ChangePermission", sidMD(e.admin["defaultdb"]), &schema.ChangePermissionRequest{Action: schema.PermissionAction_GRANT, Username: orig.name, Database: orig.db, Permission: orig.perm})
+		}
+		u.perm, state = other, "valid"
+		r.Fault("permission-changed-before-login")
+	case "revoke-relogin":
+		e.must("schema/ChangePermission", amd, &schema.ChangePermissionRequest{Action: schema.PermissionAction_REVOKE, Username: u.name, Database: u.db, Permission: u.perm})
+		orig := u
+		regrant = func() {
+			e.must("schema/ChangePermission", sidMD(e.admin["defaultdb"]), &schema.ChangePermissionRequest{Action: schema.PermissionAction_GRANT, Username: orig.name, Database: orig.db, Permission: orig.perm})
+		}
+		u.perm, state = 0, "valid"
+		r.Fault("permission-revoked-before-login")
+	}
+
 	// credentials
 	var md metadata.MD
 	selected := "none"
@@ -655,7 +688,6 @@ func (e *c18Env) cell(u c18User, sel, kind, state string) string {
 	}
 
 	// state reached after login
-	regrant := func() {}
 	switch state {
 	case "closed":
 		if kind == "session" {
@@ -718,7 +750,7 @@ func (e *c18Env) cell(u c18User, sel, kind, state string) string {
 	}
 	sort.SliceStable(order, func(a, b int) bool { return c18Late[order[a].key] < c18Late[order[b].key] })
 
-	label := fmt.Sprintf("%s/%s/%s/%s(selected=%s)", u.name, sel, kind, state, selected)
+	label := fmt.Sprintf("%s/%s/%s/%s(selected=%s)", u.name, sel, kind, origState, selected)
 	fp := e.fingerprint()
 	mustRefuse, refused := 0, 0
 	for _, m := range order {
@@ -818,7 +850,7 @@ func (e *c18Env) cell(u c18User, sel, kind, state string) string {
 		fp = e.fingerprint()
 	}
 	regrant()
-	r.Probe("c18-cell-" + state)
+	r.Probe("c18-cell-" + origState)
 	return fmt.Sprintf("%s must-refuse=%d refused=%d", label, mustRefuse, refused)
 }
 
